@@ -71,8 +71,9 @@ func (s *badgerStore) CheckAndSaveNonce(ID string, nonce int64) error {
 		if s.nonceExpire > 0 {
 			// The nonce has to be remembered for as long as a replay of it
 			// would still pass the age check above: a nonce from a clock
-			// running ahead stays fresh for that much longer.
-			ttl := s.nonceExpire
+			// running ahead stays fresh for that much longer. Expiry times
+			// are kept in whole seconds, rounded down, hence the extra second.
+			ttl := s.nonceExpire + time.Second
 			if ahead := time.Duration(nonce - time.Now().UnixNano()); ahead > 0 {
 				ttl += ahead
 				if ttl < ahead {
